@@ -140,3 +140,5 @@ pub fn sym_b() -> String { String::new() }
 #[derive(TS)] #[ts(optional_fields)] pub struct OA2<T: TS> { pub a: Option<T>, pub b: Option<T>, pub c: Vec<T>, #[ts(inline)] pub d: Option<Vec<T>> }
 #[derive(TS)] #[ts(optional_fields = nullable)] pub struct OA3<T: TS> { #[ts(as = "Option<T>")] pub a: i32, pub b: Vec<T> }
 #[derive(TS)] #[ts(optional_fields = nullable)] pub struct OA4<T: TS> { pub a: Option<T>, pub b: Vec<T> }
+#[derive(TS)] #[doc = "cdoc"] #[ts(rename = "Ren")] pub struct DD5<T> { #[doc = "da"] pub a: Vec<T>, #[ts(skip)] #[doc = "hidden"] pub s: i32 }
+#[derive(TS)] #[ts(rename = "Ren")] pub struct DN5<T> { pub a: Vec<T>, #[ts(skip)] pub s: i32 }
